@@ -1,7 +1,7 @@
 (* C17 -- Pointers set for a test are restored after it; plugin actions nest properly.
-   Only statements; every proof is `exact <lemma>` into C17_Proofs.v. *)
+   Only statements; every proof is `exact <lemma>` into C17_Proofs.v / C17_Chain.v / C17_Run.v. *)
 From Coq Require Import NArith Arith Bool List.
-From CppUVerif Require Import gen.Gen_Common C17_Model C17_Proofs.
+From CppUVerif Require Import gen.Gen_Common C17_Model C17_Proofs C17_Chain C17_Run.
 Import ListNotations.
 
 (* every test (any statements in setup/body/teardown, any outcome) started with an empty table: after SetPointerPlugin's
@@ -36,18 +36,26 @@ Theorem C17_post_actions : forall c m tb,
 Proof. exact post_all_state. Qed.
 Print Assumptions C17_post_actions.
 
-(* the table is empty before every test of every valid session *)
-Theorem C17_consecutive_tests : forall s1 t s2,
-  valid (s1 ++ OTest t :: s2) = true -> s_tbl (exec_ops init_state s1) = [].
-Proof. exact table_empty_before_every_test. Qed.
+(* the table is empty between any two operations of every valid session ... *)
+Theorem C17_consecutive_tests : forall s1 s2,
+  valid (s1 ++ s2) = true -> s_tbl (exec_ops init_state s1) = [].
+Proof. exact table_empty_between. Qed.
 Print Assumptions C17_consecutive_tests.
+
+(* ... and before every test inside every run (runAllTests, the runner) of a valid session, where that test is a valid one
+   for the chain as the run so far has left it *)
+Theorem C17_consecutive_tests_in_run : forall ts1 st t ts2 r',
+  good st -> valid_tests (s_reg st) (ts1 ++ t :: ts2) = Some r' ->
+  s_tbl (fst (run_tests st ts1)) = [] /\ xtest_ok (s_chain (fst (run_tests st ts1))) t = true.
+Proof. exact table_empty_in_run. Qed.
+Print Assumptions C17_consecutive_tests_in_run.
 
 (* the redirection that finds the table full fails the test at that statement: nothing recorded, nothing assigned *)
 Theorem C17_limit_fails_test : forall m tb l v r, max_set <= length tb -> exec_stmts m tb (SSet l v :: r) = (m, tb, false).
 Proof. exact store_at_limit. Qed.
 Print Assumptions C17_limit_fails_test.
 
-(* in every session whatsoever no table slot >= MAX_SET is ever used *)
+(* in every session whatsoever (runs, acting plugins, the runner included) no table slot >= MAX_SET is ever used *)
 Theorem C17_limit_no_overrun : forall ops st, length (s_tbl st) <= max_set -> length (s_tbl (exec_ops st ops)) <= max_set.
 Proof. exact session_bounded. Qed.
 Print Assumptions C17_limit_no_overrun.
@@ -60,6 +68,16 @@ Theorem C17_order : forall m tb c t,
   end.
 Proof. exact test_order. Qed.
 Print Assumptions C17_order.
+
+(* that plain recursion IS what the model runs for a test without actions on a chain of recording plugins (any table, a
+   pointer plugin or none): observation, memory, table *)
+Theorem C17_plain_recursion : forall st t, wf (s_reg st) -> passive (s_chain st) ->
+  snd (run_xtest st (lift t)) = snd (run_test (s_mem st) (s_tbl st) (s_chain st) t) /\
+  s_mem (fst (run_xtest st (lift t))) = fst (fst (run_test (s_mem st) (s_tbl st) (s_chain st) t)) /\
+  s_tbl (fst (run_xtest st (lift t))) = snd (fst (run_test (s_mem st) (s_tbl st) (s_chain st) t)) /\
+  s_reg (fst (run_xtest st (lift t))) = s_reg st.
+Proof. exact passive_run_xtest. Qed.
+Print Assumptions C17_plain_recursion.
 
 (* the head of the chain is the plugin installed last *)
 Theorem C17_install_order : forall l st,
@@ -82,6 +100,62 @@ Print Assumptions C17_remove_unique.
 Theorem C17_remove_exact_old_refuted : ~ (forall n c, remove_by_name_old n c = filter (fun p => negb (N.eqb (p_name p) n)) c).
 Proof. exact remove_old_refuted. Qed.
 Print Assumptions C17_remove_exact_old_refuted.
+
+(* ---- install / remove / enable / disable while a run is going on *)
+(* one test of a run, started on a well-formed registry with an empty table, valid for the chain c0 it starts with (its
+   statements and the pre / post actions of c0's acting plugins may install, remove by name, enable, disable, reset -- also
+   the acting plugin itself, in the last of its actions): afterwards the registry is the textbook one (the actions of the
+   enabled acting plugins head first, of the statements that are reached, of the enabled acting plugins tail first, applied
+   in that order; removal = every plugin of the name gone, installation = new head): THE NEXT TEST STARTS FROM THAT CHAIN;
+   the table is empty, every pointer is back (the value before the first redirection), the verdict is the statements';
+   the recording plugins that no action of the test names logged: enabled ones of c0 head first, then the exact reverse *)
+Theorem C17_test_in_run : forall st0 t, wf (s_reg st0) -> s_tbl st0 = [] -> xtest_ok (s_chain st0) t = true ->
+  s_reg (fst (run_xtest st0 t)) = fst (tb_acts (s_reg st0, []) (test_acts (s_chain st0) t)) /\
+  s_tbl (fst (run_xtest st0 t)) = [] /\
+  s_mem (fst (run_xtest st0 t)) = fst (ref_test (s_mem st0) (strip t)) /\
+  snd (run_xtest st0 t) =
+    ITest (snd (ref_test (s_mem st0) (strip t)))
+          (filter (unnamed (snd (tb_acts (s_reg st0, []) (test_acts (s_chain st0) t)))) (log_ids (s_chain st0)))
+          (filter (unnamed (snd (tb_acts (s_reg st0, []) (test_acts (s_chain st0) t)))) (rev (log_ids (s_chain st0))))
+          (fst (ref_test (s_mem st0) (strip t))).
+Proof. exact run_xtest_ok. Qed.
+Print Assumptions C17_test_in_run.
+
+(* a whole run (any number of tests, each valid for the chain the tests before it have left): the registry after the run is
+   the textbook one, the table is empty, and the observations are the ones the oracle demands test by test *)
+Theorem C17_run_takes_chain_at_each_test : forall ts st r', good st -> valid_tests (s_reg st) ts = Some r' ->
+  s_reg (fst (run_tests st ts)) = r' /\ good (fst (run_tests st ts)) /\
+  forall obs, spec_tests (s_reg st) (s_mem st) ts (snd (run_tests st ts) ++ obs) = Some (r', s_mem (fst (run_tests st ts)), obs).
+Proof. exact run_tests_ok. Qed.
+Print Assumptions C17_run_takes_chain_at_each_test.
+
+(* whatever a test does (valid or not): a plugin of the chain that none of its actions names is still in the chain
+   afterwards, unchanged -- removing by name removes nothing else, also from inside a run *)
+Theorem C17_unnamed_plugins_stay : forall st t, wf (s_reg st) ->
+  wf (s_reg (fst (run_xtest st t))) /\
+  forall p, In p (s_chain st) -> ~ In (p_id p) (s_T (fst (run_xtest st t))) -> In p (s_chain (fst (run_xtest st t))).
+Proof. exact run_xtest_J. Qed.
+Print Assumptions C17_unnamed_plugins_stay.
+
+(* ---- the command line runner *)
+(* whatever plugins the registry holds -- any names, the runner's own plugin name included, pointer plugins or not, enabled
+   or not, any number -- runAllTestsMain over tests that leave the registry alone (any redirections, any outcome, repeated
+   -r times) is a valid scenario: C17_run_meets_spec then says every pointer is back after every test and after the run *)
+Theorem C17_runner_any_registry : forall r rep ts, 0 < rep -> (forall p, In p (r_chain r) -> is_actor p = false) ->
+  (forall t, In t ts -> stmt_acts t = [] /\ forallb stmt_ok (all_stmts (strip t)) = true) ->
+  valid_from r [ORunner rep ts] = true.
+Proof. exact runner_valid. Qed.
+Print Assumptions C17_runner_any_registry.
+
+(* ... directly: with the runner's plugin installed on top of such a registry, a test leaves every redirected pointer at the
+   value it had before its first redirection, the table empty and the registry as it was *)
+Theorem C17_runner_restores : forall st t, good st -> (forall p, In p (s_chain st) -> is_actor p = false) -> stmt_acts t = [] ->
+  forallb stmt_ok (all_stmts (strip t)) = true ->
+  let st1 := install st (runner_plugin (s_next st)) in
+  s_mem (fst (run_xtest st1 t)) = fst (ref_test (s_mem st) (strip t)) /\ s_tbl (fst (run_xtest st1 t)) = [] /\
+  s_reg (fst (run_xtest st1 t)) = s_reg st1.
+Proof. exact runner_restores. Qed.
+Print Assumptions C17_runner_restores.
 
 (* the executable oracle used on the implementation's observations accepts every model observation *)
 Theorem C17_run_meets_spec : forall s, valid s = true -> spec s (run s) = true.
